@@ -1128,8 +1128,8 @@ fn main() {
     let stdout = std::io::stdout();
     let mut out = std::io::BufWriter::new(stdout.lock());
     match sub.as_str() {
-        "gen" => {
-            for (id, s) in gen_scenarios(seed, n, &tier, "s") {
+        "gen" | "gen4" => {
+            for (id, s) in gen_scenarios(seed, n, &tier, "s", sub == "gen4") {
                 scn_to_case(id, &s).write(&mut out);
             }
         }
@@ -1146,14 +1146,15 @@ fn main() {
             }
         }
         "count" => {
-            writeln!(out, "{}", product_size()).unwrap();
+            writeln!(out, "{} {}", product_size(false), product_size(true)).unwrap();
         }
-        "oracle" | "oracle-c11" | "oracle-c10" => {
-            let prop = sub.strip_prefix("oracle-").unwrap_or("");
+        "oracle" | "oracle-c11" | "oracle-c10" | "oracle4-c11" | "oracle4-c10" => {
+            let wide = sub.starts_with("oracle4");
+            let prop = sub.split('-').nth(1).unwrap_or("");
             let mut fails: Vec<String> = vec![];
             let mut stats: BTreeMap<String, u64> = BTreeMap::new();
             // thorough: the same exhaustive shard as the correspondence; quick: an independent sample
-            let scns = gen_scenarios(if tier == "thorough" { seed } else { seed ^ 0x00c1_1c10 }, n, &tier, "o");
+            let scns = gen_scenarios(if tier == "thorough" { seed } else { seed ^ 0x00c1_1c10 }, n, &tier, "o", wide);
             let total = scns.len();
             // every scenario is evaluated; at most 3 FAIL lines (with their case) are kept per class
             let mut per_class: BTreeMap<String, u64> = BTreeMap::new();
